@@ -14,7 +14,7 @@ INTROSPECTION = "{ __schema { queryType { name } types { name kind } } __typenam
 import re
 def _msg(m): return re.sub(r"0x[0-9a-fA-F]+", "0x?", m or "")
 def canon(resp):
-    return _msg(json.dumps({"data": enc(resp.get("data")), "errors": sorted(json.dumps([e.get("path"), _msg(e.get("message")), sorted([l["line"], l["column"]] for l in e.get("locations") or [])]) for e in resp.get("errors") or [])}, sort_keys=True))
+    return _msg(json.dumps({"data": enc(resp.get("data")), "errors": sorted(json.dumps([e.get("path"), _msg(e.get("message")), sorted([l["line"], l["column"]] for l in e.get("locations") or []), e.get("extensions")], sort_keys=True, default=str) for e in resp.get("errors") or [])}, sort_keys=True))
 
 class Note:
     """query-side directive: records the argument it was given in its own request's context"""
@@ -52,8 +52,16 @@ def explore(tier, seed):
         # every other one coerces sibling fields one by one (an introspection field may then resolve late in its request)
         if si % 3 == 0: mdl["sdl_extra"].append("extend schema @nonIntrospectable")
         cfg = {"coerce_parent_concurrently": False, "parent_concurrently": False} if (si % 2 == 1 or si % 3 == 0) else None
-        b = loop.run_until_complete(er.build_engine(mdl, renv, cfg=cfg, directives={"note": Note()}))
-        fresh = loop.run_until_complete(er.build_engine(mdl, renv, cfg=cfg, directives={"note": Note()}))      # never sees concurrent traffic
+        # on every other schema the engines enrich their errors IN PLACE with a key specific to the error's message and path
+        # (the documented use of an error coercer): what is written for one request's error belongs to that error only
+        async def stamping(exception, error):
+            key = "m-" + hashlib.sha256((str(error.get("message")) + json.dumps(error.get("path"), default=str)).encode()).hexdigest()[:6]
+            if isinstance(error.get("extensions"), dict): error["extensions"][key] = 1
+            else: error["extensions"] = {key: 1}
+            return error
+        ekw = {"error_coercer": stamping} if si % 2 == 1 else None
+        b = loop.run_until_complete(er.build_engine(mdl, renv, cfg=cfg, directives={"note": Note()}, engine_kwargs=ekw))
+        fresh = loop.run_until_complete(er.build_engine(mdl, renv, cfg=cfg, directives={"note": Note()}, engine_kwargs=ekw))      # never sees concurrent traffic
         b.scribble = fresh.scribble = si % 2 == 0       # resolvers that modify their own arguments in place
         pool = []
         for _ in range(8):
@@ -69,6 +77,9 @@ def explore(tier, seed):
                     variables, _ = dg.variables_for(opvars[k2], invalid=0.1)
                     pool.append((q, ops[k2][1], variables))
         pool += [(INTROSPECTION, None, None), ("{ __typename ", None, None), ("{ nope }", None, None), (pool[0][0], "Unknown", None)]
+        # refused documents with SEVERAL errors of one rule, and introspection under aliases of this schema's own
+        pool += [("{ nope1 nope2 }", None, None), ("{ __typename nope3 }", None, None), (f"{{ i{si}: __schema {{ queryType {{ name }} }} __typename }}", None, None),
+                 (f'{{ __typename\n  j{si}: __type(name: "Query") {{ name }} }}', None, None)]
         # an introspection field placed AFTER awaited resolvers of the same request
         late = []
         gated = [f for f in sg.query["fields"] if f"Query.{f['name']}" in renv["resolvers"] and renv["resolvers"][f"Query.{f['name']}"]["k"] != "default"
@@ -76,7 +87,7 @@ def explore(tier, seed):
         for f in gated[:2]:
             from gen import base as _b
             sub = " { __typename }" if _b(f["type"]) not in sg.leaf_names else ""
-            pool.append((f"{{ {f['name']}{sub} s1: __schema {{ queryType {{ name }} }} t1: __type(name: \"Query\") {{ name }} }}", None, None))
+            pool.append((f"{{ {f['name']}{sub} s{si}x: __schema {{ queryType {{ name }} }} t{si}x: __type(name: \"Query\") {{ name }} }}", None, None))
             late.append(len(pool) - 1)
         def solo(engine_b, req, idx=0, hide=False):
             hub = MultiHub(1)
@@ -117,6 +128,18 @@ def explore(tier, seed):
                 if got != solo_fresh[i]:
                     pr.append(f"request #{j} answered differently in flight with {n - 1} other request(s) than alone")
                     diffs.append({"request": j, "alone": solo_fresh[i], "in_flight": got})
+            # every error speaks about ITS OWN request: its path lies in that response, its locations in that document (what
+            # another request - in flight or earlier in the process - left behind shows up as a foreign path / location)
+            for j, i in enumerate(idxs):
+                if results[j][0] == "ok" and isinstance(pool[i][0], str) and (results[j][1].get("errors")):
+                    try:
+                        import oracles as orc
+                        r_ = results[j][1]
+                        shape = [x for x in orc.check_errors(er.parse_doc(pool[i][0]), enc(r_.get("data")), er.canon_errors(r_.get("errors")), r_.get("errors"))
+                                 if "does not exist in data" in x or "absent from data" in x or "outside the query" in x]
+                    except Exception:
+                        shape = []
+                    if shape: pr.append(f"request #{j}: {shape[0]}"); break
             # contexts must not leak: every resolver call carries the context of its own request
             for call in b.calls:
                 ctx = call.get("ctx")
@@ -126,7 +149,9 @@ def explore(tier, seed):
             probe = rng.randrange(len(pool))
             r2 = solo(b, pool[probe], 1, hide=(probe % 3 == 1))
             got2 = (canon(r2[1]) if r2[0] == "ok" else f"raised {type(r2[1]).__name__}") + "|notes=" + json.dumps(r2[2])
-            if got2 != solo_fresh[probe]: pr.append("a request issued afterwards behaves differently from the same request on a fresh engine")
+            if got2 != solo_fresh[probe]:
+                pr.append("a request issued afterwards behaves differently from the same request on a fresh engine")
+                diffs.append({"request_afterwards": {"query": pool[probe][0], "operation_name": pool[probe][1], "variables": pool[probe][2]}, "fresh": solo_fresh[probe], "afterwards": got2})
             if pr:
                 stats["problems"].append({"what": pr[:4], "diffs": diffs[:2], "family": [{"query": pool[i][0], "operation_name": pool[i][1], "variables": pool[i][2]} for i in idxs], "sdl": print_sdl(b.model), "env": renv})
             if len(stats["samples"]) < 3 and inflight >= 2:
